@@ -20,9 +20,12 @@ def run(ctx):
     paths = universes(ctx, ["c1d2", "k3d2", "k2d3"] if ctx.quick else ["c1d2", "k3d2", "k2d3", "k4d2", "k3d3", "k5d2", "k4d3"])
     ev = ctx.work / "events.ndjson"
     ctx.dsv("C03", "drive", "--out", ev, "--universe", ",".join(paths), "--maxgen", 5 if ctx.quick else 6,
-            "--big", 5 if ctx.quick else 25, timeout=3600)
+            "--big", 5 if ctx.quick else 25, "--families", 6000 if ctx.quick else 40000, "--branchings", 40 if ctx.quick else 400, timeout=3600)
     for ln in open(ev):
         e = json.loads(ln)
+        if e["ev"] == "canonical_family":
+            ctx.nontrivial.add(json.dumps(e["members"][0]["in"], sort_keys=True))
+            continue
         if e["in"]["n"] >= 2:
             ctx.nontrivial.add(json.dumps(e["in"], sort_keys=True))
     rej = ctx.validate("Trace_C03", ev, shard=600, group_field="grp", xmx="6g")
